@@ -59,7 +59,10 @@ func VfC01Verify() {
 
 	known := vfHashSize(addr.Hash) != 0
 	ip16 := addr.IP.As16()
-	shape := addr.IP.IsValid() && addr.IP.Is6() && ip16[0] == 0xfd && addr.Hash != "" && nt > 0 && nk > 0 && known
+	// "unknown algorithm or key-type names and odd key sizes are rejected": the only key type is
+	// Ed25519, whose public keys have 32 bytes (anything else makes ed25519.Verify panic later)
+	keyOK := addr.Type == crop.KeyPairTypeEd25519 && nk == ed25519.PublicKeySize
+	shape := addr.IP.IsValid() && addr.IP.Is6() && ip16[0] == 0xfd && addr.Hash != "" && nt > 0 && nk > 0 && known && keyOK
 	if err != nil {
 		if shape {
 			// well-formed: rejection must be due to a digest mismatch (or an unencodable size)
